@@ -102,6 +102,8 @@ pub struct Dgram {
     pub copy: u32,
     /// bytes were altered by the network or injected by the harness
     pub forged: bool,
+    /// length of the prefix that is byte-identical to the genuine datagram
+    pub intact: usize,
 }
 
 impl PartialEq for Dgram {
@@ -321,6 +323,7 @@ pub struct World {
     pub seed: u64,
     pub trace: Option<Vec<String>>,
     pub buf: Vec<u8>,
+    pub pair_cfg: BTreeMap<u64, TcfgP>,
 }
 
 fn mk_endpoint_config(spec: &EpSpec, seed: u64, idx: usize) -> EndpointConfig {
@@ -418,6 +421,7 @@ impl World {
             seed,
             trace: None,
             buf: Vec::with_capacity(65536),
+            pair_cfg: BTreeMap::new(),
         }
     }
 
@@ -463,8 +467,13 @@ impl World {
         let remote = self.eps[to].addr;
         let (ch, mut c) = self.eps[from].ep.connect(now, cfg, remote, "localhost").map_err(|e| format!("{e:?}"))?;
         let mut app = App::new(app, Side::Client, pair, hash64(self.seed, &[b"app", &pair.to_le_bytes()]));
+        app.dgram_send_buf = Some(tcfg.dgram_send_buf);
         app.start(&mut c, &mut self.led);
         self.mon.on_conn_created(from, ch.0, pair, Side::Client, remote);
+        if let Some(s) = self.eps[to].spec.server.as_ref() {
+            self.mon.set_peer_limits(from, ch.0, (s.tcfg.rwnd, s.tcfg.stream_rwnd, s.tcfg.max_bidi, s.tcfg.max_uni));
+        }
+        self.pair_cfg.insert(pair, tcfg.clone());
         let cid_len = self.eps[from].spec.cid_len;
         self.eps[from].conns.insert(
             ch.0,
@@ -547,6 +556,7 @@ impl World {
             }
             let mut d = data.clone();
             let mut forged = false;
+            let mut intact = d.len();
             let mut ecn = ecn;
             if faults_on && self.rng.permille(self.netcfg.corrupt_pm) {
                 forged = true;
@@ -557,11 +567,13 @@ impl World {
                         for _ in 0..flips {
                             let i = self.rng.usize(d.len());
                             d[i] ^= 1 << self.rng.below(8);
+                            intact = intact.min(i);
                         }
                     }
                     2 => {
                         let keep = self.rng.usize(d.len());
                         d.truncate(keep.max(1));
+                        intact = d.len();
                     }
                     _ => {
                         let extra = 1 + self.rng.usize(40);
@@ -586,6 +598,7 @@ impl World {
                 gid,
                 copy,
                 forged,
+                intact,
             });
         }
     }
@@ -593,7 +606,8 @@ impl World {
     /// Inject an arbitrary datagram (harness as attacker / hostile peer).
     pub fn inject(&mut self, at: u64, src: SocketAddr, dst: SocketAddr, ecn: Option<EcnCodepoint>, data: Vec<u8>, gid: u64, forged: bool) {
         self.net.seq += 1;
-        self.net.q.push(Dgram { at, seq: self.net.seq, src, dst, ecn, data, origin: None, gid, copy: 1, forged });
+        let intact = if forged { 0 } else { data.len() };
+        self.net.q.push(Dgram { at, seq: self.net.seq, src, dst, ecn, data, origin: None, gid, copy: 1, forged, intact });
     }
 
     fn ep_of_addr(&self, a: &SocketAddr) -> Option<usize> {
@@ -601,6 +615,11 @@ impl World {
     }
 
     fn emit_transmit(&mut self, ep: usize, origin: Option<usize>, t: &Transmit, bytes: &[u8]) {
+        if origin.is_none() {
+            if let Some(tr) = &mut self.trace {
+                tr.push(format!("{} stateless-tx {ep} dst={} size={} first={:02x}", self.now, t.destination, t.size, bytes[0]));
+            }
+        }
         let seg = t.segment_size.unwrap_or(t.size).max(1);
         for chunk in bytes[..t.size].chunks(seg) {
             self.send_dgram(ep, origin, t.destination, t.ecn, chunk.to_vec());
@@ -646,7 +665,15 @@ impl World {
             Some(DatagramEvent::Response(t)) => {
                 self.mon.after_deliver(ei, &d, None, &self.eps[ei], &mut self.led);
                 self.eps[ei].responses += 1;
-                self.mon.on_response(ei, &d, &t, &buf[..t.size], self.now, &mut self.led);
+                if let Some(tr) = &mut self.trace {
+                    let desc = match crate::wire::decode_plain_datagram(&buf[..t.size], 0) {
+                        Ok(p) => format!("{:?}", p.iter().map(|x| (x.pkt.ty, x.frames.clone())).collect::<Vec<_>>()),
+                        Err(e) => format!("{e:?}"),
+                    };
+                    tr.push(format!("{} response {ei} dst={} size={} {}", self.now, t.destination, t.size, desc));
+                }
+                let min_iv = self.eps[ei].spec.reset_interval_ms * 1_000_000;
+                self.mon.on_response(ei, &d, &t, &buf[..t.size], self.now, min_iv, &mut self.led);
                 let b = buf[..t.size].to_vec();
                 self.emit_transmit(ei, None, &t, &b);
             }
@@ -706,8 +733,12 @@ impl World {
         match self.eps[ei].ep.accept(incoming, now, buf, Some(Arc::new(sc))) {
             Ok((ch, mut c)) => {
                 let mut app = App::new(spec.app.clone(), Side::Server, pair, hash64(self.seed, &[b"sapp", &pair.to_le_bytes()]));
+                app.dgram_send_buf = Some(spec.tcfg.dgram_send_buf);
                 app.start(&mut c, &mut self.led);
                 self.mon.on_conn_created(ei, ch.0, pair, Side::Server, remote);
+                if let Some(t) = self.pair_cfg.get(&pair) {
+                    self.mon.set_peer_limits(ei, ch.0, (t.rwnd, t.stream_rwnd, t.max_bidi, t.max_uni));
+                }
                 if validated {
                     self.mon.on_validated(ei, ch.0, remote);
                 }
@@ -927,11 +958,26 @@ impl World {
                 }
             }
             Op::SetMaxConcurrent { ep, bidi, v } => {
+                if self.eps[ep].conns.is_empty() && self.now < 3_000_000_000_000 {
+                    // no connection yet: try again shortly so the change is not lost
+                    self.ops.push((self.now + 200_000_000, Op::SetMaxConcurrent { ep, bidi, v }));
+                }
                 for c in self.eps[ep].conns.values_mut() {
                     c.c.set_max_concurrent_streams(if bidi { proto::Dir::Bi } else { proto::Dir::Uni }, VarInt::from_u64(v).unwrap());
                 }
             }
             Op::Rebind { ep, alt, tell_conn } => {
+                // an address change before the handshake is confirmed on both sides legitimately
+                // kills the handshake; postpone until every connection is established
+                let all_up = self.eps.iter().all(|e| e.conns.values().all(|c| c.app.connected && !c.c.is_handshaking()))
+                    && self.eps.iter().any(|e| !e.conns.is_empty())
+                    && self.eps[ep].conns.values().all(|c| c.c.verif_probe().has_keys[1] == false);
+                if !all_up {
+                    if self.now < 3_000_000_000_000 {
+                        self.ops.push((self.now + 200_000_000, Op::Rebind { ep, alt, tell_conn }));
+                    }
+                    return;
+                }
                 let idx = ep;
                 let na = addr_of(idx, alt);
                 let e = &mut self.eps[idx];
@@ -940,6 +986,7 @@ impl World {
                 }
                 e.addr = na;
                 self.mon.cnt.inc("op.rebind");
+                self.mon.rebinds += 1;
                 if tell_conn {
                     for c in e.conns.values_mut() {
                         c.c.local_address_changed();
@@ -1015,6 +1062,15 @@ impl World {
             }
         }
         self.run_ops();
+        // adversarial congestion controllers: re-draw the window between polls
+        for e in &self.eps {
+            for c in e.conns.values() {
+                if let crate::cfg::CcKind::Adversarial { min, max } = c.tcfg.cc {
+                    let w = min + self.rng.below(max.saturating_sub(min) + 1);
+                    c.cc.set_window(w);
+                }
+            }
+        }
         // 2..4 timers, events, flush until settled at this instant
         let keys: Vec<(usize, usize)> =
             self.eps.iter().enumerate().flat_map(|(ei, e)| e.conns.keys().map(move |k| (ei, *k))).collect();
@@ -1112,6 +1168,37 @@ impl World {
                     return RunEnd::Done;
                 }
                 return RunEnd::Quiescent;
+            }
+        }
+    }
+
+    /// Drain every connection's received datagrams (end of a run). For receivers that never
+    /// read before, on a FIFO path, what they hold must be a suffix of the arrival order.
+    pub fn read_all_datagrams(&mut self, fifo: bool) {
+        for ei in 0..self.eps.len() {
+            let chs: Vec<usize> = self.eps[ei].conns.keys().copied().collect();
+            for ch in chs {
+                let conn = self.eps[ei].conns.get_mut(&ch).unwrap();
+                let writer_client = conn.side == Side::Server;
+                let pair = conn.pair;
+                let before = self.led.dgram(pair, writer_client).received.len();
+                let never_read = !conn.app.cfg.dgram_read;
+                conn.app.read_dgrams(&mut conn.c, &mut self.led);
+                if never_read && fifo && self.lane == Lane::Null {
+                    let got: Vec<u32> = self.led.dgram(pair, writer_client).received[before..].to_vec();
+                    let arrivals: Vec<u32> = self.mon.dgram_arrivals.get(&(ei, ch)).map(|v| v.iter().flatten().copied().collect()).unwrap_or_default();
+                    self.mon.cnt.inc("c16.suffix_checks");
+                    let ok = got.len() <= arrivals.len() && arrivals[arrivals.len() - got.len()..] == got[..];
+                    if !ok {
+                        self.mon.violate(
+                            "C16",
+                            format!("conn {ei}/{ch}: non-reading receiver holds {got:?}, not a suffix of the arrival order {arrivals:?} (oldest must be dropped first)"),
+                        );
+                    }
+                    if got.len() < arrivals.len() {
+                        self.mon.cnt.inc("c16.receiver_overflowed");
+                    }
+                }
             }
         }
     }
